@@ -303,7 +303,8 @@ XalanDOMString::append(
         {
             m_data.insert(getBackInsertIterator(), theString, theString + theLength);
 
-            m_size += theCount;
+            // (theCount may be npos)
+            m_size += theLength;
         }
     }
 
